@@ -14,7 +14,13 @@ from common import Rng
 import itertools
 
 ROLES = ["ebgp", "rs", "ibgp", "rr", "confed"]
-RIDS = [1, 2, 16843009, 3232235777]          # incl. a router-id >= 2^31 (192.168.1.1)
+RIDS = [1, 2, 16843009, 3232235777, 0, 4294967295]   # incl. a router-id >= 2^31 (192.168.1.1) and both ends of u32
+# Every numeric comparison key is drawn from a domain holding both ends of its range, the default that an absent
+# attribute stands for and its two neighbours, and "absent" itself: an explicit 0 / explicit default / absent
+# must all be told apart by the ranking exactly as the decision order says.
+LOCAL_PREFS = ["-", "-", "0", "0", "1", "99", "100", "100", "101", "110", "65636", "4294967295"]   # 65636 = 2^16 + 100
+ORIGINS = ["-", "0", "0", "1", "2", "2", "3", "255"]     # absent counts as 2 (incomplete)
+ORIGINATORS = ["-", "-", "-", "0", "1", "2", "16843009", "3232235777", "4294967295"]
 
 
 def seg(t, n, asn=65000):
@@ -32,18 +38,19 @@ HUGE_PATH = "x" + seg(2, 255) * 63 + seg(2, 250)         # 16315 hops, 65400 byt
 COMMS = ["-", "-", "-", "xffff0006", "xffff0007", "x00010002", "x00010002ffff0006", "xffff0007ffff0006", "xffff00"]
 EXTS_T2 = ["-", "x0600000000000000", "x0600000000000001", "x0600000000000001", "x00020001000000010600000000000001", "x0002000100000001",
            "x0601000000000009",                          # EVPN type 0x06 sub-type 0x01 (ESI label): NOT MAC mobility
-           "x06030000000000090600000000000000"]          # default-gateway (0x06/0x03) in front of mobility 0
-CLUSTERS = ["-", "-", "x01010101", "x0101010102020202"]
+           "x06030000000000090600000000000000",          # default-gateway (0x06/0x03) in front of mobility 0
+           "x06000000ffffffff", "x0600000000000002"]     # largest sequence number; 2
+CLUSTERS = ["-", "-", "x", "x01010101", "x0101010102020202", "x00000000"]   # absent, present-but-empty, 1, 2, 1 (zero id)
 
 
 def gen_attr(r, t2, long_ok):
-    lp = r.pick(["-", "90", "100", "100", "110", "110", "65636", "4294967295"])   # 65636 = 2^16 + 100
-    origin = r.pick(["-", "0", "0", "1", "2"])
+    lp = r.pick(LOCAL_PREFS)
+    origin = r.pick(ORIGINS)
     if long_ok and r.chance(1, 3):
         ap = r.pick(LONG_PATHS)
     else:
         ap = r.pick(AS_PATHS)
-    oid = r.pick(["-", "-", "-", "1", "2", "16843009", "3232235777"])
+    oid = r.pick(ORIGINATORS)
     cl = r.pick(CLUSTERS)
     comm = r.pick(COMMS)
     ext = r.pick(EXTS_T2) if t2 else r.pick(["-", "-", "-", "x0600000000000001"])
@@ -396,12 +403,55 @@ def mutate(r, line):
     return " ".join(toks).replace("( ", "(").replace(" )", ")")
 
 
+def gen_keypair(r):
+    """One decision step at a time: 2-3 paths of one prefix that agree on every earlier comparison key and take
+    boundary values (both ends of the range, the default an absent attribute stands for and its neighbours,
+    absent itself) on the examined key; later keys vary freely.  Both arrival orders, then a removal and
+    re-insertion of the first arrival."""
+    fam = r.pick(["v4", "v4", "ev"])
+    order = ["mm", "lp", "aspath", "origin", "role", "cluster", "oid", "rid"]
+    key = r.pick(["lp", "lp", "lp", "aspath", "origin", "origin", "role", "cluster", "cluster", "oid", "oid", "rid", "rid"]
+                 + (["mm", "mm", "mm"] if fam == "ev" else []))
+    t2 = fam == "ev" and (key == "mm" or r.chance(2, 3))
+    dom = {"lp": LOCAL_PREFS, "origin": ORIGINS, "aspath": AS_PATHS, "oid": ORIGINATORS, "cluster": CLUSTERS,
+           "mm": EXTS_T2 if t2 else ["-"], "rid": RIDS, "role": ROLES}
+    base = {k: r.pick(dom[k]) for k in order}
+    n = 2 + r.below(2)
+    ki = order.index(key)
+    srcs, attrs = [], []
+    for i in range(n):
+        f = {}
+        for j, k in enumerate(order):
+            if j < ki:
+                f[k] = base[k]
+            elif j == ki:
+                f[k] = r.pick(dom[k])
+            else:
+                f[k] = r.pick(dom[k]) if r.chance(1, 2) else base[k]
+        srcs.append("(s %d %d %s -)" % (i + 1, f["rid"], f["role"]))
+        attrs.append("(a %s %s %s %s %s - %s)" % (f["lp"], f["origin"], f["aspath"], f["oid"], f["cluster"], f["mm"]))
+    net = "(m 1)" if t2 else "(v 1)"
+    arrival = list(range(n))
+    for i in range(n - 1, 0, -1):
+        j = r.below(i + 1)
+        arrival[i], arrival[j] = arrival[j], arrival[i]
+    ops = ["(ins %d %s %s 0 1 %d f f)" % (i, fam, net, i) for i in arrival]
+    if r.chance(1, 2):
+        i = arrival[0]
+        ops.append("(rm %d %s %s 0)" % (i, fam, net))
+        ops.append("(ins %d %s %s 0 1 %d f f)" % (i, fam, net, i))
+    if r.chance(1, 3):
+        i = r.pick(arrival)
+        ops.append("(%s %d %s)" % (r.pick(["restale", "restale-llgr"]), i + 1, fam))
+    return "(case (srcs %s) (attrs %s) (ops %s))" % (" ".join(srcs), " ".join(attrs), " ".join(ops))
+
+
 def gen(seed, n, tier, focus):
     """focus: 'C02' | 'C06' | 'C15' shifts the stream weights."""
     r = Rng(seed * 1000003 + {"C02": 2, "C06": 6, "C15": 15}[focus])
-    w = {"C02": [("ranking", 20), ("history", 8), ("limits", 2), ("deferral", 2), ("malformed", 2), ("gr", 4), ("alloc", 1), ("pmatrix", 3)],
-         "C06": [("ranking", 6), ("history", 16), ("limits", 4), ("deferral", 8), ("malformed", 2), ("gr", 6), ("alloc", 2), ("pmatrix", 6)],
-         "C15": [("ranking", 4), ("history", 12), ("limits", 18), ("deferral", 2), ("malformed", 2), ("gr", 10), ("alloc", 1), ("pmatrix", 4)]}[focus]
+    w = {"C02": [("ranking", 20), ("history", 8), ("limits", 2), ("deferral", 2), ("malformed", 2), ("gr", 4), ("alloc", 1), ("pmatrix", 3), ("keypair", 10)],
+         "C06": [("ranking", 6), ("history", 16), ("limits", 4), ("deferral", 8), ("malformed", 2), ("gr", 6), ("alloc", 2), ("pmatrix", 6), ("keypair", 3)],
+         "C15": [("ranking", 4), ("history", 12), ("limits", 18), ("deferral", 2), ("malformed", 2), ("gr", 10), ("alloc", 1), ("pmatrix", 4), ("keypair", 2)]}[focus]
     out = []
     nalloc = 0
     while len(out) < n:
@@ -419,6 +469,8 @@ def gen(seed, n, tier, focus):
             out.append(gen_gr(r, limits=r.chance(2, 3)))
         elif k == "pmatrix":
             out.append(gen_purge_matrix(r))
+        elif k == "keypair":
+            out.append(gen_keypair(r))
         elif k == "alloc":
             # big cases (130 steps x 130 destinations per dump): a fixed number per run
             if nalloc < 24:
